@@ -292,24 +292,33 @@ Inductive reopen := ReObj | ReBytes.
 (* [hdr]: header bytes after the sample count (none for XOR, the ST header byte for XOR2) *)
 Inductive eres := EPanic | EAppErr | EOk (num : Z) (hdr : list Z) (bs : bits).
 
-Fixpoint xor_run (segs : list (reopen * list sample)) (num : Z) (bs : bits) : eres :=
+(* [fixed] = true is the code after "fix: chunkenc: XORChunk.Appender does not restore the write
+   position on a chunk reloaded from bytes": Appender() sets bstream.count from the iterator's
+   reader (c.b.count = it.br.valid), so in terms of the logical bit stream a reload changes
+   nothing.  [fixed] = false is the code before the fix: FromData leaves count = 0, Appender()
+   did not restore it, the next write started a new byte, i.e. the stream was zero-padded to a
+   byte boundary and the iterator later decoded the padding as sample data. *)
+Fixpoint xor_run_gen (fixed : bool) (segs : list (reopen * list sample)) (num : Z) (bs : bits) : eres :=
   match segs with
   | [] => EOk num [] bs
   | (k, ss) :: r =>
-      (* XORChunk.Appender() does not restore bstream.count: after FromData the next write
-         starts a new byte, i.e. the stream is zero-padded to a byte boundary *)
-      let bs1 := match k with ReObj => bs | ReBytes => pad8 bs end in
+      let bs1 := match k with
+                 | ReObj => bs
+                 | ReBytes => if fixed then bs else pad8 bs
+                 end in
       match xor_resume num bs1 with
       | None => EAppErr
       | Some a =>
           match xor_append_all num a ss with
           | None => EPanic
-          | Some (b, n2, _) => xor_run r n2 (bs1 ++ b)
+          | Some (b, n2, _) => xor_run_gen fixed r n2 (bs1 ++ b)
           end
       end
   end.
 
+Definition xor_run := xor_run_gen true.
 Definition xor_encode (segs : list (reopen * list sample)) : eres := xor_run segs 0 [].
+Definition xor_encode_old (segs : list (reopen * list sample)) : eres := xor_run_gen false segs 0 [].
 
 (* ---- iterator scripts: Next / Seek ----------------------------------------------------------- *)
 
